@@ -123,7 +123,7 @@ struct Opts {
 inline void enumerate(const World &w, const Opts &o, std::vector<Op> &out) {
   out.clear();
   const int cntmax = 3;
-  static const int few_src[] = {S_PTR, S_INPUT, S_LIST, S_MOVE_PTR};
+  static const int few_src[] = {S_PTR, S_INPUT, S_LIST, S_MOVE_PTR, S_CONV};
   for (int i = 0; i < w.K; ++i) {
     const int sz = (int)w.m[i].v.size();
     // growth allowed up to lim; for throwing fixed vectors also calls that exceed N (expected to throw)
@@ -156,13 +156,13 @@ inline void enumerate(const World &w, const Opts &o, std::vector<Op> &out) {
         for (int p = 0; p <= sz; ++p) {
           add(INS_N, p, n);
           add(INS_IL, p, n);
-          if (o.ranges_all) for (int s = 0; s < S_COUNT; ++s) add(INS_RANGE, p, n, s);
+          if (o.ranges_all) for (int s = 0; s < S_COUNT_VEC; ++s) add(INS_RANGE, p, n, s);
           else for (int s : few_src) add(INS_RANGE, p, n, s);
           if (o.alias) for (int s = 0; s < sz; ++s) add(INS_N_ALIAS, p, n, s);
         }
         if (o.extras) {
           add(APPEND_N, n); add(APPEND_NV, n); add(APPEND_IL, n);
-          if (o.ranges_all) for (int s = 0; s < S_COUNT; ++s) add(APPEND_RANGE, n, s);
+          if (o.ranges_all) for (int s = 0; s < S_COUNT_VEC; ++s) add(APPEND_RANGE, n, s);
           else for (int s : few_src) add(APPEND_RANGE, n, s);
           if (o.alias) for (int s = 0; s < sz; ++s) add(APPEND_ALIAS, n, s);
         }
@@ -175,11 +175,11 @@ inline void enumerate(const World &w, const Opts &o, std::vector<Op> &out) {
       if (o.alias) for (int s = 0; s < sz; ++s) { add(RESIZE_ALIAS, n, s); add(ASSIGN_ALIAS, n, s); }
       if (n <= cntmax) {
         add(ASSIGN_IL, n); add(OPEQ_IL, n);
-        if (o.ranges_all) for (int s = 0; s < S_COUNT; ++s) add(ASSIGN_RANGE, n, s);
+        if (o.ranges_all) for (int s = 0; s < S_COUNT_VEC; ++s) add(ASSIGN_RANGE, n, s);
         else for (int s : few_src) add(ASSIGN_RANGE, n, s);
         if (o.ctors) {
           add(CTOR_COUNT, n); add(CTOR_COUNT_V, n); add(CTOR_IL, n);
-          if (o.ranges_all) for (int s = 0; s < S_COUNT; ++s) add(CTOR_RANGE, n, s);
+          if (o.ranges_all) for (int s = 0; s < S_COUNT_VEC; ++s) add(CTOR_RANGE, n, s);
           else for (int s : few_src) add(CTOR_RANGE, n, s);
         }
       }
